@@ -3,6 +3,7 @@ package c02
 
 import (
 	"fmt"
+	"github.com/scigolib/hdf5"
 	"os"
 	"path/filepath"
 	"strings"
@@ -68,6 +69,11 @@ type Case struct {
 	Collide bool   `json:"collide"`          // name pool includes the colliding pairs
 	Family  int    `json:"family,omitempty"` // L > 0: the first L+1 pool names are a base name of length L and its L one-byte variants
 	Ops     []Op   `json:"ops"`
+	// NoRebalance: the writer option that switches name-index rebalancing off (creation option, toggle after a reopen)
+	NoRebalance bool `json:"no_rebalance,omitempty"`
+	// Crowd > 0: before the history that many distinct small attributes are written to the object (a single name-index
+	// leaf holds 371 records)
+	Crowd int `json:"crowd,omitempty"`
 }
 
 func genVal(t *rapid.T) *hist.AttrVal {
@@ -94,6 +100,10 @@ func gen(t *rapid.T) Case {
 		Chunked: rapid.Bool().Draw(t, "chunked"),
 		Others:  rapid.SampledFrom([]int{0, 1, 2}).Draw(t, "others"),
 		Collide: rapid.IntRange(0, 19).Draw(t, "collide") == 0,
+	}
+	c.NoRebalance = rapid.IntRange(0, 3).Draw(t, "noRebalance") == 0
+	if rapid.IntRange(0, 39).Draw(t, "crowded") == 0 {
+		c.Crowd = rapid.IntRange(366, 376).Draw(t, "crowd")
 	}
 	if rapid.IntRange(0, 3).Draw(t, "withFamily") == 0 {
 		// names that differ from one another in exactly one byte, at every position of a name of length L: a name index that
@@ -200,7 +210,19 @@ func classify(c Case) (bool, []string) {
 	if c.Family > 0 {
 		labels = append(labels, "one_byte_variant_names")
 	}
-	return maxLive > 8 || sizeChanging > 0 || rewrites > 0 || reopens > 0, labels
+	if c.NoRebalance {
+		labels = append(labels, "rebalancing_off")
+		if dels > 0 && maxLive > 8 {
+			labels = append(labels, "rebalancing_off_dense_delete")
+		}
+	}
+	if c.Crowd > 0 {
+		labels = append(labels, "crowded_object")
+		if c.Crowd > 371 {
+			labels = append(labels, "more_names_than_one_index_leaf_holds")
+		}
+	}
+	return maxLive > 8 || sizeChanging > 0 || rewrites > 0 || reopens > 0 || c.Crowd > 0, labels
 }
 
 func run(c Case) vt.Verdict {
@@ -210,10 +232,15 @@ func run(c Case) vt.Verdict {
 	}
 	file := filepath.Join(vt.GetEnv().Scratch, fmt.Sprintf("c02-%d.h5", os.Getpid()))
 	defer os.Remove(file)
-	ex, err := hist.NewExec(file, c.SB)
+	var wopts []interface{}
+	if c.NoRebalance {
+		wopts = append(wopts, hdf5.WithBTreeRebalancing(false))
+	}
+	ex, err := hist.NewExec(file, c.SB, wopts...)
 	if err != nil {
 		return vt.Bad("CreateForWrite: %v", err)
 	}
+	ex.NoRebalance = c.NoRebalance
 	defer ex.Close()
 	target := "/t"
 	setup := []hist.Op{}
@@ -239,6 +266,19 @@ func run(c Case) vt.Verdict {
 	collision := false
 	liveHash := map[uint32]int{}
 	ok := 0
+	if c.Crowd > 400 {
+		return vt.Skipped("crowd out of range")
+	}
+	for i := 0; i < c.Crowd; i++ {
+		name := fmt.Sprintf("n%03d", i)
+		st := ex.Apply(hist.Op{K: "attr", Path: target, Name: name, A: &hist.AttrVal{Kind: "i32", Seed: i}})
+		if st.Broken != "" {
+			return vt.Bad("crowd write %d %q: %s", i, name, st.Broken)
+		}
+		if st.Err == "" {
+			liveHash[refimpl.Lookup3([]byte(name), 0)]++
+		}
+	}
 	for i, op := range c.Ops {
 		if op.Name < 0 || op.Name >= len(pool) {
 			return vt.Skipped("name index out of range")
